@@ -67,22 +67,44 @@ def _uninstall(undo):
         setattr(cls, name, orig)
 
 
-def run_once(net, script=None, default="identity", sched_seed=0, exec_mode=None):
+def run_once(net, script=None, default="identity", sched_seed=0, exec_mode=None, prelude_seed=None):
     """Run one (network, schedule) in a forked child (pristine process state, like fresh workers)."""
     from .. import scenario_kit as sk
 
     try:
-        return sk.run_isolated(_run_once, net, script, default, sched_seed, exec_mode, timeout=600.0)
+        return sk.run_isolated(_run_once, net, script, default, sched_seed, exec_mode, prelude_seed, timeout=600.0)
     except sk.IsolatedRunError as e:
         return {"digests": [], "facts": [], "batches": None, "error": ("run-raised-IsolatedRunError-harness", str(e)[:500])}
 
 
-def _run_once(net, script=None, default="identity", sched_seed=0, exec_mode=None):
+def _prelude(seed):
+    """Another tasking scenario (same sensor and target ids, other sites, orbits, policy and start) run to its end in this interpreter first."""
+    import random
+
+    from .. import scenario_kit as sk
+
+    r2 = random.Random(seed)
+    net2 = netkit.gen_network(r2)
+    net2["nsteps"] = 2
+    b = sk.build(netkit.net_cfg(net2), base_seed=net2["seed"])
+    try:
+        for _ in range(net2["nsteps"]):
+            b.app.stepForward()
+            b.app.saveDatabaseOutput()
+    except Exception:  # noqa: BLE001  (a diverged filter in the preceding scenario is of no interest here)
+        pass
+    finally:
+        sk.teardown(b)
+
+
+def _run_once(net, script=None, default="identity", sched_seed=0, exec_mode=None, prelude_seed=None):
     """Run one (network, schedule); returns per-step digests, bookkeeping facts and the batches seen."""
     from .. import scenario_kit as sk
     from .. import shimray
 
     sk.init()
+    if prelude_seed is not None:
+        _prelude(prelude_seed)
     sched = shimray.make_sched_script(script, default=default, seed=sched_seed)
     cfg = netkit.net_cfg(net)
     exec_order = None if exec_mode is None else (shimray.exec_reverse if exec_mode == "reverse" else shimray.make_exec_random(sched_seed + 17))
@@ -204,7 +226,9 @@ def check_bookkeeping(ctx, net, res, sched_desc):
 def schedules_for(net, base_batches, rng, quick):
     """Scripts to run besides identity: list of (description, script dict, default, seed)."""
     out = [("reverse", None, "reverse", 0), ("random-a", None, "random", rng.randrange(1 << 30)),
-           ("exec-reverse", None, "identity", 0, "reverse"), ("exec-random+random", None, "random", rng.randrange(1 << 30), "random")]
+           ("exec-reverse", None, "identity", 0, "reverse"), ("exec-random+random", None, "random", rng.randrange(1 << 30), "random"),
+           # the same run after another scenario has been run to its end in the same interpreter (bookkeeping checked, nothing compared)
+           ("after-another-scenario", None, "identity", 0, None, rng.randrange(1 << 30))]
     if not quick:
         out.append(("random-b", None, "random", rng.randrange(1 << 30)))
     # index batches per function
@@ -251,10 +275,12 @@ def eval_net(ctx, net, rng):
     for entry in schedules_for(net, base["batches"], rng, ctx.quick):
         desc, script, default, seed = entry[:4]
         exec_mode = entry[4] if len(entry) > 4 else None
+        prelude_seed = entry[5] if len(entry) > 5 else None
         if ctx.time_left() < 5:
             break
-        res = run_once(net, script, default, seed, exec_mode)
-        sd = {"desc": desc, "script": {f"{k[0]}#{k[1]}" if isinstance(k, tuple) else k: list(v) for k, v in (script or {}).items()}, "default": default, "seed": seed, "exec_mode": exec_mode}
+        res = run_once(net, script, default, seed, exec_mode, prelude_seed)
+        sd = {"desc": desc, "script": {f"{k[0]}#{k[1]}" if isinstance(k, tuple) else k: list(v) for k, v in (script or {}).items()}, "default": default, "seed": seed, "exec_mode": exec_mode,
+              "prelude_seed": prelude_seed}
         wit = {"kind": "c08", "net": net, "schedule": sd}
         if res["error"] and ("LinAlgError" in res["error"][0] or "invalid numeric entries" in res["error"][1]):
             ctx.count("schedules_skipped_filter_divergence")
@@ -265,6 +291,11 @@ def eval_net(ctx, net, rng):
         nsched += 1
         ctx.add_to_set("schedule_scripts", desc.split("=")[0] + "=" + str(len(desc)))
         check_bookkeeping(ctx, net, res, sd)
+        if prelude_seed is not None:
+            # the property speaks about one run's records and about completion orders; what an earlier scenario may change in the
+            # numbers is not compared here (truth: C10) - only this run's own bookkeeping is checked
+            ctx.count("runs_after_another_scenario")
+            continue
         multi = any(len(set(s for s, _ in f["pairs"])) != len(f["pairs"]) for f in base["facts"])
         diff, after_rounding = netkit.compare_runs(base["digests"], res["digests"])
         if diff is not None and after_rounding:
@@ -360,7 +391,11 @@ def replay(ctx, w):
             script[k] = tuple(v)
     base = run_once(net)
     check_bookkeeping(ctx, net, base, "identity")
-    res = run_once(net, script or None, sd.get("default", "identity"), sd.get("seed", 0), sd.get("exec_mode"))
+    res = run_once(net, script or None, sd.get("default", "identity"), sd.get("seed", 0), sd.get("exec_mode"), sd.get("prelude_seed"))
+    if sd.get("prelude_seed") is not None and not res["error"]:
+        check_bookkeeping(ctx, net, res, sd)
+        ctx.check(True, "order-dependence", "", w, mon="order_indep")
+        return
     if res["error"] or base["error"]:
         ctx.check(False, (res["error"] or base["error"])[0], str(res["error"] or base["error"]), w, mon="order_indep")
         return
